@@ -308,6 +308,13 @@ def recipes(rng, qp, dims=None):
         add(R("mutual_info", [xs, A0, A1], lambda q, T: q.mutual_info(rho_of(q, T[0], T[1], T[2]), [0], [1]), None, grad=True, tol=1e-9, gtol=2e-6))
     add(R("min_entropy", [xs, A0, A1], lambda q, T, s=sub: q.min_entropy(rho_of(q, T[0], T[1], T[2]), s), None, grad=True, tol=1e-9, gtol=2e-6))
     add(R("reduce_dm", [xs, A0, A1], lambda q, T, s=sub: q.real(q.reduce_dm(rho_of(q, T[0], T[1], T[2]), s)), None, grad=True, tol=1e-10))
+    # partial_trace on 3 qubits with the traced indices in any order (autograd has its own implementation, the others share an einsum path)
+    D3a, D3b = A(rng, 8, 8), A(rng, 8, 8)
+    ptr = [int(x) for x in rng.permutation(3)[: int(rng.integers(1, 3))]]
+    add(R("partial_trace", [xs, D3a, D3b], lambda q, T, s=ptr: q.real(q.partial_trace(rho_of(q, T[0], T[1], T[2]), s)), None, grad=True, tol=1e-10))
+    pun = [[1, 0], [2, 0], [2, 1]][int(rng.integers(3))]
+    add(R("partial_trace/unsorted", [xs, D3a, D3b], lambda q, T, s=pun: q.real(q.partial_trace(rho_of(q, T[0], T[1], T[2]), s)), None, grad=True, tol=1e-10,
+          cls="partial_trace"))
     add(R("sqrt_matrix", [xs, A0, A1], lambda q, T: q.sqrt_matrix(rho_of(q, T[0], T[1], T[2])), None, tol=1e-8))
     add(R("reduce_statevector", [A(rng, d, kind="c") / 2], lambda q, T, s=sub: q.reduce_statevector(T[0], s), None))
     P = rng.dirichlet(np.ones(4))
